@@ -27,6 +27,9 @@ from .solver import Solver
 sys.setrecursionlimit(20000)
 
 
+NO_INIT_PKGS = ('encoding/binary',)
+
+
 class Unsupported(Exception):
     pass
 
@@ -1749,6 +1752,8 @@ class Executor:
             fn = self.prog.funcs.get(name)
             if fn is None or fn.extern:
                 continue
+            if name.rsplit('.', 1)[0] in NO_INIT_PKGS:
+                continue     # helper packages whose bodies are exported but whose package state is never used
             s2 = st.fork()
             s2.heap = st.heap
             fr = Frame()
